@@ -3,7 +3,7 @@ from __future__ import annotations
 import ast
 from fractions import Fraction as F
 from ..core import expr as X
-from ..core.interp import Interp, Arr
+from ..core.interp import Interp, Arr, concrete
 from ..core.report import AnalysisError
 from ..frontend.pyfront import Repo
 
@@ -19,12 +19,52 @@ EXPLANATION = ('R05.1 sensitivity_to_shear/bulk == TB05 eq. 33 with dy1/dr the s
                '(so the theorem holds for layered bodies); R05.7 both kernels are non-negative sums of squares along solutions, hence Im k <= 0 for dissipative or elastic layers.')
 
 
+def _solid_domain(itp, st, v, fr):
+    """Domain assumption of the kernels: the shear modulus of the analysed (solid) node is not zero and lies above any constant liquid cut-off its
+    modulus |mu| is compared with.  Every other data-dependent test is explored on both arms (kernel_paths)."""
+    if isinstance(v, X.Node) and v.op == 'cmp':
+        a, b = v.args
+        for (u, w, flip) in ((a, b, False), (b, a, True)):
+            t = u
+            while t.op == 'fn' and t.val in ('abs', 'abs2', 'sqrt') and len(t.args) == 1:
+                t = t.args[0]
+            if t is not u or v.val in ('==', '!='):
+                if t.op == 'atom' and str(t.val[0]).startswith('mu') and concrete(w) is not None and concrete(w) >= 0:
+                    op = v.val
+                    if flip:
+                        op = {'<': '>', '<=': '>=', '>': '<', '>=': '<=', '==': '==', '!=': '!='}[op]
+                    return op in ('>', '>=', '!=')
+    return None
+
+
+def kernel_paths(it, m, f, args, max_paths=64):
+    """Outcomes of f(*args) on every arm of its data-dependent branches: [(label, value)].  Measure-zero arms (x == 0) are outside the kernels domain and skipped."""
+    from ..core.interp import PathExplorer
+    old = it.hooks.get('fork')
+
+    def one(fork):
+        it.hooks['fork'] = fork
+        try:
+            return it.call(m, f, list(args))
+        finally:
+            if old is None:
+                it.hooks.pop('fork', None)
+            else:
+                it.hooks['fork'] = old
+    res = []
+    for trace, val in PathExplorer(max_paths=max_paths).run(one):
+        if any(PathExplorer.arm(v, o)[0] == 'equality' for (v, _, _, o) in trace):
+            continue
+        res.append((PathExplorer.label(trace), val))
+    if not res:
+        raise AnalysisError(f'{f.name}: no path with non-empty interior')
+    return res
+
+
 def run(chk):
     repo = Repo(chk.repo)
 
-    def bh(itp, st, v, fr):
-        return False      # `if r == 0.`: r > 0 on the analysed region
-    it = Interp(repo, hooks={'branch': bh})
+    it = Interp(repo, hooks={'branch': _solid_domain})      # `if r == 0.` is decided by the sign domain (r > 0 on the analysed region)
     m = repo.by_path('TidalPy/radial_solver/sensitivity.py')
     d = X.Decider(seed=chk.seed, k=3 if chk.tier == 'quick' else 12)
 
@@ -43,28 +83,28 @@ def run(chk):
             rad = Arr('r', default=lambda k: X.atom(f'r{k}', 'pos'), shape=(nr,))
             mu = Arr('mu', default=lambda k: X.atom(f'mu{k}', 'complex'), shape=(nr,))
             K = Arr('K', default=lambda k: X.atom(f'K{k}', 'complex'), shape=(nr,))
-            out = it.call(m, f, [y, rad, mu, K, l])
-            for i in range(nr):
-                r = rad.get(i); y1, y2, y3, y4 = (y.get((c, i)) for c in range(4))
-                T = 2 * y1 - l * (l + 1) * y3
-                # derivative of y1 at node i by the reference stencil
-                if i == 0:
-                    D = (y.get((0, 1)) - y1) / (rad.get(1) - r)
-                elif i == nr - 1:
-                    D = (y1 - y.get((0, i - 1))) / (r - rad.get(i - 1))
-                else:
-                    h0 = r - rad.get(i - 1); h1 = rad.get(i + 1) - r
-                    D = -h1 / (h0 * (h0 + h1)) * y.get((0, i - 1)) + (h1 - h0) / (h0 * h1) * y1 + h0 / (h1 * (h0 + h1)) * y.get((0, i + 1))
-                Dc = X.fn('conj', D)
-                Kc = K.get(i); muc = mu.get(i)
-                first = r * r / X.fn('abs2', Kc + X.const(F(4, 3)) * muc) * X.fn('abs2', y2 - (Kc - X.const(F(2, 3)) * muc) / r * T)
-                if fname == 'sensitivity_to_shear':
-                    ref = (X.const(F(4, 3)) * first - X.const(F(4, 3)) * r * X.fn('real', Dc * T) + X.const(F(1, 3)) * X.fn('abs2', T)
-                           + l * (l + 1) * r * r * X.fn('abs2', y4) / X.fn('abs2', muc) + l * (l * l - 1) * (l + 2) * X.fn('abs2', y3))
-                else:
-                    ref = first + 2 * r * X.fn('real', Dc * T) + X.fn('abs2', T)
-                pos = 'first' if i == 0 else ('last' if i == nr - 1 else 'interior')
-                eq('R05.1', f'{fname} l={l} node {i} ({pos}) == TB05 eq. 33', out.get(i), ref, where)
+            for lab, out in kernel_paths(it, m, f, [y, rad, mu, K, l]):
+                for i in range(nr):
+                    r = rad.get(i); y1, y2, y3, y4 = (y.get((c, i)) for c in range(4))
+                    T = 2 * y1 - l * (l + 1) * y3
+                    # derivative of y1 at node i by the reference stencil
+                    if i == 0:
+                        D = (y.get((0, 1)) - y1) / (rad.get(1) - r)
+                    elif i == nr - 1:
+                        D = (y1 - y.get((0, i - 1))) / (r - rad.get(i - 1))
+                    else:
+                        h0 = r - rad.get(i - 1); h1 = rad.get(i + 1) - r
+                        D = -h1 / (h0 * (h0 + h1)) * y.get((0, i - 1)) + (h1 - h0) / (h0 * h1) * y1 + h0 / (h1 * (h0 + h1)) * y.get((0, i + 1))
+                    Dc = X.fn('conj', D)
+                    Kc = K.get(i); muc = mu.get(i)
+                    first = r * r / X.fn('abs2', Kc + X.const(F(4, 3)) * muc) * X.fn('abs2', y2 - (Kc - X.const(F(2, 3)) * muc) / r * T)
+                    if fname == 'sensitivity_to_shear':
+                        ref = (X.const(F(4, 3)) * first - X.const(F(4, 3)) * r * X.fn('real', Dc * T) + X.const(F(1, 3)) * X.fn('abs2', T)
+                               + l * (l + 1) * r * r * X.fn('abs2', y4) / X.fn('abs2', muc) + l * (l * l - 1) * (l + 2) * X.fn('abs2', y3))
+                    else:
+                        ref = first + 2 * r * X.fn('real', Dc * T) + X.fn('abs2', T)
+                    pos = 'first' if i == 0 else ('last' if i == nr - 1 else 'interior')
+                    eq('R05.1', f'{fname} l={l} node {i} ({pos}) == TB05 eq. 33{lab}', out.get(i), ref, where)
             chk.note_analysed('functions', f'sensitivity.{fname} l={l}')
         # R05.2: stencil exactness: feed y1(r) = c0 + c1 r + c2 r^2 and read the derivative back from the kernel.
         # H_K is affine in Re(conj(D) T): isolate D by differentiating the output w.r.t. the atom standing for y3 (T = 2y1 - l(l+1) y3).
@@ -85,8 +125,8 @@ def run(chk):
     mu = Arr('mu', default=lambda k: X.atom(f'mu{k}', 'complex'), shape=(nr,))
     K = Arr('K', default=lambda k: X.atom(f'K{k}', 'complex'), shape=(nr,))
     l = 2
-    out = it.call(m, f, [y, rad, mu, K, l])
-    for i in range(nr):
+    for lab, out in kernel_paths(it, m, f, [y, rad, mu, K, l]):
+      for i in range(nr):
         r = rad.get(i)
         # with real y1, y3: out = first + 2 r D T + T^2, T = 2 y1 - 6 y3;  d out/d y3r_i restricted to the D-term: -12 r D + (terms without D)
         y3a = f'y3r_{i}'
@@ -98,9 +138,9 @@ def run(chk):
         if i in (0, nr - 1):
             dz = X.Decider(seed=chk.seed + 3, k=3, pins={'c2': 0})
             ok = dz.equal(Dval, c1)
-            chk.ob('R05.2', f'end-point difference at node {i} is exact for linear y1', ok, '' if ok else dz.describe(Dval, c1), where, method='pinned GF(p^2) PIT')
+            chk.ob('R05.2', f'end-point difference at node {i} is exact for linear y1{lab}', ok, '' if ok else dz.describe(Dval, c1), where, method='pinned GF(p^2) PIT')
         else:
-            eq('R05.2', f'three-point stencil at interior node {i} is exact for quadratic y1 on a non-uniform grid (sum w = 0, sum w d = 1, sum w d^2 = 0)', Dval, c1 + 2 * c2 * r, where)
+            eq('R05.2', f'three-point stencil at interior node {i} is exact for quadratic y1 on a non-uniform grid (sum w = 0, sum w d = 1, sum w d^2 = 0){lab}', Dval, c1 + 2 * c2 * r, where)
 
     # R05.3 coefficient closure
     mh = repo.by_path('TidalPy/tides/multilayer/heating.py')
@@ -193,10 +233,20 @@ def energy_theorem(chk, repo, it, m):
         ya = Arr('y', default=ydef, shape=(6, 3))
         mu_a = Arr('mu', default=lambda k: P['mu'] if k == 1 else X.atom(f'mu_other{k}', 'complex'), shape=(3,))
         K_a = Arr('K', default=lambda k: P['K'] if k == 1 else X.atom(f'K_other{k}', 'complex'), shape=(3,))
-        Hmu = it.call(m, fs, [ya, rad, mu_a, K_a, lv]).get(1)
-        HK = it.call(m, fb, [ya, rad, mu_a, K_a, lv]).get(1)
-        rhs = X.fn('imag', P['mu']) * Hmu + X.fn('imag', P['K']) * HK
-        ok = d.equal(dJ, rhs)
+        def distinct(pairs):
+            seen = {}
+            for lab, o in pairs:
+                seen.setdefault(id(o.get(1)), (lab, o.get(1)))
+            return list(seen.values())
+        Hmus = distinct(kernel_paths(it, m, fs, [ya, rad, mu_a, K_a, lv]))
+        HKs = distinct(kernel_paths(it, m, fb, [ya, rad, mu_a, K_a, lv]))
+        combos = [(a, HKs[0]) for a in Hmus] + [(Hmus[0], b) for b in HKs[1:]]
+        ok = True
+        for (la, Hmu), (lb, HK) in combos:
+            rhs = X.fn('imag', P['mu']) * Hmu + X.fn('imag', P['K']) * HK
+            if not d.equal(dJ, rhs):
+                ok = False
+                break
         chk.ob('R05.5', f'{name}: d/dr of the energy flux J == Im(mu) sensitivity_to_shear + Im(K) sensitivity_to_bulk for every solution of these equations', ok,
                '' if ok else 'the local dissipation kernels do not integrate to the flux of the implemented equations: ' + d.describe(dJ, rhs), where, key=f'R05.5|{name}', method='symbolic differentiation along the ODE + GF(p^2) PIT')
         # sign: along solutions both kernels are sums of squares with non-negative weights (certificate checked as an identity), so with (a), (b):
@@ -204,7 +254,7 @@ def energy_theorem(chk, repo, it, m):
         T = 2 * y[0] - L * y[2]
         cert_mu = X.const(F(1, 3)) * X.fn('abs2', 2 * r * D - T) + L * r * r * X.fn('abs2', y[3]) / X.fn('abs2', P['mu']) + lv * (lv * lv - 1) * (lv + 2) * X.fn('abs2', y[2])
         cert_K = X.fn('abs2', r * D + T)
-        ok = d.equal(Hmu, cert_mu) and d.equal(HK, cert_K)
+        ok = all(d.equal(h, cert_mu) for _, h in Hmus) and all(d.equal(h, cert_K) for _, h in HKs)
         chk.ob('R05.7', f'{name}: along solutions sensitivity_to_shear == |2 r y1\' - T|^2 / 3 + l(l+1) r^2 |y4|^2 / |mu|^2 + (l-1) l (l+1) (l+2) |y3|^2 and sensitivity_to_bulk == |r y1\' + T|^2 '
                '(T = 2 y1 - l(l+1) y3): both non-negative, hence Im k <= 0 for dissipative or elastic layers', ok,
                '' if ok else 'a kernel is not the non-negative sum of squares along solutions of this class', where, key=f'R05.7|{name}', method='sum-of-squares certificate, GF(p^2) PIT')
